@@ -267,4 +267,131 @@ theorem fold_compStep (bs : Blocks) (swf : StoreWF bs) (R0 : Nat → Prop) (m0 :
       (by simpa using hready.2)
     simpa using this
 
+theorem upath_comp (bs : Blocks) (swf : StoreWF bs) (heads : List Nat) (c x : Nat) (hc : Comp bs c)
+    (h : UPath bs heads c x) : Comp bs x := by
+  induction h with
+  | self => exact hc
+  | step _ hg _ hp ih =>
+    obtain ⟨b', hb', hk⟩ := ih
+    rw [hg] at hb'; cases hb'
+    exact swf.compParents _ _ hg hk _ hp
+
+theorem upath_anc (bs : Blocks) (heads : List Nat) (c x : Nat) (h : UPath bs heads c x) : Anc bs c x := by
+  induction h with
+  | self => exact ⟨0, Path.zero⟩
+  | step _ hg _ hp ih =>
+    obtain ⟨n, hn⟩ := ih
+    exact ⟨n + 1, hn.snoc hg hp⟩
+
+theorem reach_path_closed (bs : Blocks) (heads : List Nat) {y t n : Nat} (hp : Path bs y t n)
+    (hr : Reach bs heads y) : Reach bs heads t := by
+  induction hp with
+  | zero => exact hr
+  | succ hg hpar _ ih => exact ih (Reach.parent hr hg hpar)
+
+theorem path_upath (bs : Blocks) (heads : List Nat) (c : Nat) {y t n : Nat} (hp : Path bs y t n)
+    (hu : UPath bs heads c y) (hnr : ¬ Reach bs heads t) : UPath bs heads c t := by
+  induction hp with
+  | zero => exact hu
+  | @succ y p t b n hg hpar hrest ih =>
+    have hnm : isMerged bs heads y b.height = false := by
+      cases h : isMerged bs heads y b.height with
+      | false => rfl
+      | true =>
+        exact absurd (reach_path_closed bs heads (Path.succ hg hpar hrest) (isMerged_sound bs heads y b.height h)) hnr
+    exact ih (UPath.step hu hg hnm hpar) hnr
+
+/-- **One merge, end to end (composite level).** In a well-formed store, merging the stored commit `c` into a
+    document whose heads are composites: afterwards the merged set (the heads and their ancestors) is exactly the old
+    merged set together with `c` and its ancestors; the blocks applied are exactly the ancestors-or-self of `c` that
+    were not merged before, each once, in an order in which parents come first; the heads stay duplicate-free
+    composites. -/
+theorem mergeComp_exact (bs : Blocks) (swf : StoreWF bs) (s : CompSt) (hi : HInv bs s.heads)
+    (c : Nat) (hc : Comp bs c) :
+    ∃ news : List Block,
+      (news.map (·.id)).Nodup ∧
+      news.Pairwise (fun x y => x.height ≤ y.height) ∧
+      (∀ b, b ∈ news ↔ (bs.get? b.id = some b ∧ Anc bs c b.id ∧ ¬ Reach bs s.heads b.id)) ∧
+      HInv bs (mergeComp bs s c).heads ∧
+      (∀ t, Reach bs (mergeComp bs s c).heads t ↔ (Reach bs s.heads t ∨ (Anc bs c t ∧ ∃ b, bs.get? t = some b))) ∧
+      (mergeComp bs s c).marker = news.foldl (fun m b => markerOf b m) s.marker := by
+  let coll := (loadComposites bs s.heads (bs.length + 1) c ([], [])).1
+  let L := sortByHeight coll
+  have hperm : L.Perm coll := sortByHeight_perm coll
+  -- what the walk collected
+  have hsound : ∀ b ∈ coll, bs.get? b.id = some b ∧ isMerged bs s.heads b.id b.height = false ∧
+      UPath bs s.heads c b.id := by
+    apply loadComposites_sound bs s.heads c
+      (fun b => bs.get? b.id = some b ∧ isMerged bs s.heads b.id b.height = false ∧ UPath bs s.heads c b.id)
+    · intro x b hu hg hm
+      have hid := Blocks.get?_id hg
+      rw [hid]; exact ⟨hg, hm, hu⟩
+    · exact UPath.self
+    · intro b hb; cases hb
+  have hnodup : (coll.map (·.id)).Nodup :=
+    (loadComposites_inv bs s.heads (bs.length + 1) c ([], []) ⟨by simp, by intro b hb; cases hb⟩).1
+  have hnotreach : ∀ x b, bs.get? x = some b → isMerged bs s.heads x b.height = false → ¬ Reach bs s.heads x := by
+    intro x b hg hm hr
+    rw [isMerged_complete bs swf.wf s.heads x b hg hr] at hm; cases hm
+  have hunm : ∀ x b, bs.get? x = some b → ¬ Reach bs s.heads x → isMerged bs s.heads x b.height = false := by
+    intro x b _ hnr
+    cases h : isMerged bs s.heads x b.height with
+    | false => rfl
+    | true => exact absurd (isMerged_sound bs s.heads x b.height h) hnr
+  have hcomplete : ∀ x b, bs.get? x = some b → UPath bs s.heads c x → ¬ Reach bs s.heads x → b ∈ coll :=
+    fun x b hg hu hnr => (walk_reaches bs s.heads c x hu).2 b hg (hunm x b hg hnr)
+  -- membership of the sorted list
+  have hmemL : ∀ b, b ∈ L ↔ (bs.get? b.id = some b ∧ Anc bs c b.id ∧ ¬ Reach bs s.heads b.id) := by
+    intro b
+    rw [hperm.mem_iff]
+    constructor
+    · intro hb
+      obtain ⟨h1, h2, h3⟩ := hsound b hb
+      exact ⟨h1, upath_anc bs s.heads c b.id h3, hnotreach _ _ h1 h2⟩
+    · rintro ⟨h1, ⟨n, hn⟩, h3⟩
+      exact hcomplete _ _ h1 (path_upath bs s.heads c hn UPath.self h3) h3
+  have hLnodup : (L.map (·.id)).Nodup := ((hperm.map _).nodup_iff).mpr hnodup
+  have hrestL : ∀ b ∈ L, bs.get? b.id = some b ∧ b.kind = .comp ∧ ¬ Reach bs s.heads b.id := by
+    intro b hb
+    obtain ⟨h1, h2, h3⟩ := hsound b (hperm.mem_iff.mp hb)
+    obtain ⟨b', hb', hk⟩ := upath_comp bs swf s.heads c b.id hc h3
+    rw [h1] at hb'; cases hb'
+    exact ⟨h1, hk, hnotreach _ _ h1 h2⟩
+  have hready : Ready (Reach bs s.heads) (([] : List Block).map (·.id)) L := by
+    apply ready_of_sorted bs swf.wf (Reach bs s.heads) L [] (sortByHeight_sorted coll)
+      (fun b hb => (hrestL b hb).1)
+    intro b hb p hp
+    obtain ⟨h1, h2, h3⟩ := hsound b (hperm.mem_iff.mp hb)
+    obtain ⟨pb, hpb, _⟩ := swf.wf b.id b h1 p hp
+    by_cases hr : Reach bs s.heads p
+    · exact Or.inl hr
+    · right; right
+      have hup : UPath bs s.heads c p := UPath.step h3 h1 h2 hp
+      have hin : pb ∈ coll := hcomplete p pb hpb hup hr
+      have hid := Blocks.get?_id hpb
+      exact List.mem_map.mpr ⟨pb, hperm.mem_iff.mpr hin, hid⟩
+  obtain ⟨r1, r2, r3⟩ := fold_compStep bs swf (Reach bs s.heads) s.marker L [] s hi
+    (by intro t; simp) rfl hrestL (by simpa using hLnodup) hready
+  have hmc : mergeComp bs s c = L.foldl (compStep bs) s := rfl
+  rw [hmc]
+  refine ⟨L, hLnodup, sortByHeight_sorted coll, hmemL, r1, ?_, by simpa using r3⟩
+  intro t
+  have := r2 t
+  simp only [List.nil_append] at this
+  rw [this]
+  constructor
+  · rintro (h | h)
+    · exact Or.inl h
+    · obtain ⟨b, hb, rfl⟩ := List.mem_map.mp h
+      obtain ⟨h1, h2, _⟩ := (hmemL b).mp hb
+      exact Or.inr ⟨h2, b, h1⟩
+  · rintro (h | ⟨h2, b, h1⟩)
+    · exact Or.inl h
+    · by_cases hr : Reach bs s.heads t
+      · exact Or.inl hr
+      · right
+        have hid := Blocks.get?_id h1
+        have : b ∈ L := (hmemL b).mpr ⟨by rw [hid]; exact h1, by rw [hid]; exact h2, by rw [hid]; exact hr⟩
+        exact List.mem_map.mpr ⟨b, this, hid⟩
+
 end Defra.Crdt
